@@ -6,8 +6,8 @@
  "properties": {"C05": "contract", "C19": "safety"},
  "mode": "harness",
  "kind": "proof-const-unwind",
- "unwindset": ["typecompatible.0:1", "typecompatible:3", "mkbinaryexpr:2"],
- "variants": {"A_TMUL": ["-DU_ARITH", "-DV_OP=TMUL"], "A_TDIV": ["-DU_ARITH", "-DV_OP=TDIV"], "A_TMOD": ["-DU_ARITH", "-DV_OP=TMOD"], "A_TADD": ["-DU_ARITH", "-DV_OP=TADD"], "A_TSUB": ["-DU_ARITH", "-DV_OP=TSUB"], "A_TSHL": ["-DU_ARITH", "-DV_OP=TSHL"], "A_TSHR": ["-DU_ARITH", "-DV_OP=TSHR"], "A_TLESS": ["-DU_ARITH", "-DV_OP=TLESS"], "A_TGREATER": ["-DU_ARITH", "-DV_OP=TGREATER"], "A_TLEQ": ["-DU_ARITH", "-DV_OP=TLEQ"], "A_TGEQ": ["-DU_ARITH", "-DV_OP=TGEQ"], "A_TEQL": ["-DU_ARITH", "-DV_OP=TEQL"], "A_TNEQ": ["-DU_ARITH", "-DV_OP=TNEQ"], "A_TBAND": ["-DU_ARITH", "-DV_OP=TBAND"], "A_TBOR": ["-DU_ARITH", "-DV_OP=TBOR"], "A_TXOR": ["-DU_ARITH", "-DV_OP=TXOR"], "P_TADD": ["-DV_OP=TADD"], "P_TSUB": ["-DV_OP=TSUB"], "P_TLESS": ["-DV_OP=TLESS"], "P_TGREATER": ["-DV_OP=TGREATER"], "P_TLEQ": ["-DV_OP=TLEQ"], "P_TGEQ": ["-DV_OP=TGEQ"], "P_TEQL": ["-DV_OP=TEQL"], "P_TNEQ": ["-DV_OP=TNEQ"], "P_TLAND": ["-DV_OP=TLAND"], "P_TLOR": ["-DV_OP=TLOR"]},
+ "unwindset": ["typecompatible.0:1", "typecompatible:3", "mkbinaryexpr:2", "recorded.0:9", "tysel.0:27"],
+ "variants": {"A_TMUL": ["-DU_ARITH", "-DV_OP=TMUL"], "A_TDIV": ["-DU_ARITH", "-DV_OP=TDIV"], "A_TMOD": ["-DU_ARITH", "-DV_OP=TMOD"], "A_TADD": ["-DU_ARITH", "-DV_OP=TADD"], "A_TSUB": ["-DU_ARITH", "-DV_OP=TSUB"], "A_TSHL": ["-DU_ARITH", "-DV_OP=TSHL"], "A_TSHR": ["-DU_ARITH", "-DV_OP=TSHR"], "A_TLESS": ["-DU_ARITH", "-DV_OP=TLESS"], "A_TGREATER": ["-DU_ARITH", "-DV_OP=TGREATER"], "A_TLEQ": ["-DU_ARITH", "-DV_OP=TLEQ"], "A_TGEQ": ["-DU_ARITH", "-DV_OP=TGEQ"], "A_TEQL": ["-DU_ARITH", "-DV_OP=TEQL"], "A_TNEQ": ["-DU_ARITH", "-DV_OP=TNEQ"], "A_TBAND": ["-DU_ARITH", "-DV_OP=TBAND"], "A_TBOR": ["-DU_ARITH", "-DV_OP=TBOR"], "A_TXOR": ["-DU_ARITH", "-DV_OP=TXOR"], "P_TADD": ["-DV_OP=TADD"], "PP_TSUB": ["-DU_RPTR", "-DV_OP=TSUB"], "PI_TSUB": ["-DU_RNOPTR", "-DV_OP=TSUB"], "P_TLESS": ["-DV_OP=TLESS"], "P_TGREATER": ["-DV_OP=TGREATER"], "P_TLEQ": ["-DV_OP=TLEQ"], "P_TGEQ": ["-DV_OP=TGEQ"], "P_TEQL": ["-DV_OP=TEQL"], "P_TNEQ": ["-DV_OP=TNEQ"], "P_TLAND": ["-DV_OP=TLAND"], "P_TLOR": ["-DV_OP=TLOR"], "A_TLAND": ["-DU_ARITH", "-DV_OP=TLAND"], "A_TLOR": ["-DU_ARITH", "-DV_OP=TLOR"]},
  "canary_variant": "P_TADD",
  "link_repo": ["type.c"], "cflags": ["-DVERIF_OWN_XMALLOC"],
  "timeout": 300,
@@ -31,37 +31,36 @@ int g_common, g_proml, g_promr;
 #define COMMON    g_common      /* == spec_common(LC, g_lw, RC, g_rw, SC)  6.3.1.8 */
 #define PROM_L    g_proml       /* == spec_promote(LC, g_lw, SC)           6.3.1.1p2 */
 #define PROM_R    g_promr
-#define RL        g_xl          /* operands of the returned node (post-state observers, mkbinary_common.h) */
-#define RR        g_xr
+#define X_   g_ox        /* observations of the returned tree (mkbinary_common.h) */
+#define XL   g_oxl
+#define XR   g_oxr
 
-/* x is `orig` converted to the arithmetic type with code c: either orig itself, when its type already is that type,
-   or a conversion node (EXPRCAST) to that type whose operand is orig */
-#define CONV(x, orig, c) \
-	((x) != 0 && (((x) == (orig) && TYIS((orig)->type, c)) || \
-	 ((x) != (orig) && (x)->kind == EXPRCAST && (x)->base == (orig) && TYIS((x)->type, c))))
-/* 64-bit unsigned / ptrdiff_t (LP64: long) */
-#define CONVU64(x, orig) (CONV(x, orig, AT_ULONG) || CONV(x, orig, AT_ULLONG))
-#define ISU64T(t) (TYIS(t, AT_ULONG) || TYIS(t, AT_ULLONG))
-#define ISCONST(x, v) ((x) != 0 && (x)->kind == EXPRCONST && (x)->u.constant.u == (v))
-/* x (operands xl, xr) is  idx * sz  computed in a 64-bit unsigned type (either operand order) */
-#define SCALED(x, xl, xr, idx, sz) \
-	((x) != 0 && (x)->kind == EXPRBINARY && (x)->op == TMUL && ISU64T((x)->type) && \
-	 ((CONVU64(xl, idx) && ISCONST(xr, sz) && ISU64T((xr)->type)) || \
-	  (CONVU64(xr, idx) && ISCONST(xl, sz) && ISU64T((xl)->type))))
-#define SAMEPTR(a, b) ((a)->kind == TYPEPOINTER && (a)->base == (b)->base && (a)->qual == (b)->qual)
-/* pointer operand of a comparison: itself, or converted to the other operand's pointer type (void * / null pointer constant) */
-#define PCONV(x, orig, other) ((x) != 0 && ((x) == (orig) || ((x)->kind == EXPRCAST && (x)->base == (orig) && SAMEPTR((x)->type, (other)->type))))
-#define ISCASTTO(x, orig, t) ((x) != 0 && (x)->kind == EXPRCAST && (x)->type == (t) && (x)->base == (orig))
+#define ISU64(ts)            (TSIS(ts, AT_ULONG) || TSIS(ts, AT_ULLONG))
+#define CONVU64(o, W, ots)   (CONV(o, W, ots, AT_ULONG) || CONV(o, W, ots, AT_ULLONG))
+/* o (operands ol, or) is  <operand W> * sz  computed in a 64-bit unsigned type (either operand order) */
+#define SCALED(o, ol, or_, W, ots, sz) \
+	((o).who == W_NEW && (o).kind == EXPRBINARY && (o).op == TMUL && ISU64((o).ts) && \
+	 ((CONVU64(ol, W, ots) && ISNEWCONST(or_, sz) && ISU64((or_).ts)) || \
+	  (CONVU64(or_, W, ots) && ISNEWCONST(ol, sz) && ISU64((ol).ts))))
+/* pointer operand W of a comparison: itself, or converted to the other operand's (pointer) type */
+#define PCONV(o, W, othertsel) ((o).who == (W) || ((o).who == W_NEW && (o).kind == EXPRCAST && (o).base == (W) && (o).ts == (othertsel)))
+#define ISCASTTO(o, W, c)    ((o).who == W_NEW && (o).kind == EXPRCAST && (o).base == (W) && (o).ts == (c))
 
 #define OP_ARITH  (OP_MULDIV || op == TMOD || OP_BIT || ((op == TADD || op == TSUB) && BOTH_ARITH))
 #define OP_PADD   (op == TADD && !BOTH_ARITH)
 #define OP_PSUBI  (op == TSUB && L_PTR && R_INT)
 #define OP_PSUBP  (op == TSUB && L_PTR && R_PTR)
 #define OP_CMP    (OP_REL || OP_EQ)
-/* pointer + integer: which is which */
-#define P_OP      (L_PTR ? g_l : g_r)
-#define I_OP      (L_PTR ? g_r : g_l)
+/* pointer +- integer: which is which */
+#define P_W       (L_PTR ? W_L : W_R)
+#define I_W       (L_PTR ? W_R : W_L)
+#define I_TS      (L_PTR ? g_rts : g_lts)
+#define P_TSEL    (L_PTR ? TSEL_L : TSEL_R)
 #define P_BS      (L_PTR ? g_lbs : g_rbs)
+#define P_Q       (L_PTR ? g_lq : g_rq)
+/* the result has the pointer operand's type: that very type object, or a new pointer type to the same referenced type
+   with the same qualifiers */
+#define HASPTRTYPE(o) ((o).ts == P_TSEL || ((o).ts == TSEL_NEW && (o).pkind == TYPEPOINTER && (o).pbase == (int)P_BS && (o).pqual == P_Q))
 
 #define PRE(X) \
 	PRE_WF(X) \
@@ -71,42 +70,44 @@ int g_common, g_proml, g_promr;
 	X(IMP(OP_EQ, g_lts != TS_NULLPTR && g_rts != TS_NULLPTR))
 
 #define POST(X) \
-	X(HRET != 0 && HRET != g_l && HRET != g_r && HRET->kind == EXPRBINARY) \
-	X(!HRET->lvalue) \
+	/* a new EXPRBINARY node that is not an lvalue */ \
+	X(X_.who == W_NEW && X_.kind == EXPRBINARY) \
+	X(!X_.lvalue) \
 	/* 6.5.5p3, 6.5.6p4, 6.5.10p3..: usual arithmetic conversions; the result has the common real type */ \
-	X(IMP(OP_ARITH, TYIS(HRET->type, COMMON))) \
-	X(IMP(OP_ARITH, HRET->op == op)) \
-	X(IMP(OP_ARITH, CONV(RL, g_l, COMMON))) \
-	X(IMP(OP_ARITH, CONV(RR, g_r, COMMON))) \
+	X(IMP(OP_ARITH, TSIS(X_.ts, COMMON))) \
+	X(IMP(OP_ARITH, X_.op == op)) \
+	X(IMP(OP_ARITH, CONV(XL, W_L, g_lts, COMMON))) \
+	X(IMP(OP_ARITH, CONV(XR, W_R, g_rts, COMMON))) \
 	/* 6.5.7p3: integer promotions on each operand; the result has the type of the promoted LEFT operand */ \
-	X(IMP(OP_SHIFT, TYIS(HRET->type, PROM_L))) \
-	X(IMP(OP_SHIFT, HRET->op == op)) \
-	X(IMP(OP_SHIFT, CONV(RL, g_l, PROM_L))) \
-	X(IMP(OP_SHIFT, CONV(RR, g_r, PROM_R))) \
+	X(IMP(OP_SHIFT, TSIS(X_.ts, PROM_L))) \
+	X(IMP(OP_SHIFT, X_.op == op)) \
+	X(IMP(OP_SHIFT, CONV(XL, W_L, g_lts, PROM_L))) \
+	X(IMP(OP_SHIFT, CONV(XR, W_R, g_rts, PROM_R))) \
 	/* 6.5.8p6, 6.5.9p3, 6.5.13p3, 6.5.14p3: the result has type int */ \
-	X(IMP(OP_CMP || OP_LOGIC, HRET->type == &typeint)) \
-	X(IMP(OP_CMP || OP_LOGIC, HRET->op == op)) \
+	X(IMP(OP_CMP || OP_LOGIC, X_.ts == AT_INT)) \
+	X(IMP(OP_CMP || OP_LOGIC, X_.op == op)) \
 	/* 6.5.8p3, 6.5.9p4: arithmetic operands of a comparison undergo the usual arithmetic conversions */ \
-	X(IMP(OP_CMP && BOTH_ARITH, CONV(RL, g_l, COMMON))) \
-	X(IMP(OP_CMP && BOTH_ARITH, CONV(RR, g_r, COMMON))) \
-	/* pointer comparisons: the operands are the given ones (relational: in order; equality: in either order) */ \
-	X(IMP(OP_REL && !BOTH_ARITH, RL == g_l && RR == g_r)) \
-	X(IMP(OP_EQ && !BOTH_ARITH, (PCONV(RL, g_l, g_r) && PCONV(RR, g_r, g_l)) || (PCONV(RL, g_r, g_l) && PCONV(RR, g_l, g_r)))) \
+	X(IMP(OP_CMP && BOTH_ARITH, CONV(XL, W_L, g_lts, COMMON))) \
+	X(IMP(OP_CMP && BOTH_ARITH, CONV(XR, W_R, g_rts, COMMON))) \
+	/* pointer comparisons: the operands are the given ones (relational: in order; equality: in either order), \
+	   at most converted to the other operand's type */ \
+	X(IMP(OP_REL && !BOTH_ARITH, XL.who == W_L && XR.who == W_R)) \
+	X(IMP(OP_EQ && !BOTH_ARITH, (PCONV(XL, W_L, TSEL_R) && PCONV(XR, W_R, TSEL_L)) || (PCONV(XL, W_R, TSEL_L) && PCONV(XR, W_L, TSEL_R)))) \
 	/* logical operators: operands unconverted, in order (sequence point!) */ \
-	X(IMP(OP_LOGIC, RL == g_l && RR == g_r)) \
-	/* 6.5.6p8: pointer + integer (either order) has the type of the pointer operand; address advances by \
+	X(IMP(OP_LOGIC, XL.who == W_L && XR.who == W_R)) \
+	/* 6.5.6p8: pointer +- integer has the type of the pointer operand; the address moves by \
 	   integer * sizeof(element), computed in a 64-bit unsigned type */ \
-	X(IMP(OP_PADD || OP_PSUBI, SAMEPTR(HRET->type, P_OP->type))) \
-	X(IMP(OP_PADD || OP_PSUBI, HRET->op == op)) \
-	X(IMP(OP_PADD || OP_PSUBI, RL == P_OP)) \
-	X(IMP(OP_PADD || OP_PSUBI, SCALED(RR, g_xrl, g_xrr, I_OP, BS_SIZE(P_BS)))) \
+	X(IMP(OP_PADD || OP_PSUBI, HASPTRTYPE(X_))) \
+	X(IMP(OP_PADD || OP_PSUBI, X_.op == op)) \
+	X(IMP(OP_PADD || OP_PSUBI, XL.who == P_W)) \
+	X(IMP(OP_PADD || OP_PSUBI, SCALED(XR, g_oxrl, g_oxrr, I_W, I_TS, BS_SIZE(P_BS)))) \
 	/* 6.5.6p9: pointer - pointer has type ptrdiff_t (long): byte difference divided by the element size */ \
-	X(IMP(OP_PSUBP, HRET->type == &typelong)) \
-	X(IMP(OP_PSUBP, HRET->op == TDIV)) \
-	X(IMP(OP_PSUBP, RL != 0 && RL->kind == EXPRBINARY && RL->op == TSUB && RL->type == &typelong)) \
-	X(IMP(OP_PSUBP, ISCASTTO(g_xll, g_l, &typelong))) \
-	X(IMP(OP_PSUBP, ISCASTTO(g_xlr, g_r, &typelong))) \
-	X(IMP(OP_PSUBP, ISCONST(RR, BS_SIZE(g_lbs)) && RR->type == &typelong)) \
+	X(IMP(OP_PSUBP, X_.ts == AT_LONG)) \
+	X(IMP(OP_PSUBP, X_.op == TDIV)) \
+	X(IMP(OP_PSUBP, XL.who == W_NEW && XL.kind == EXPRBINARY && XL.op == TSUB && XL.ts == AT_LONG)) \
+	X(IMP(OP_PSUBP, ISCASTTO(g_oxll, W_L, AT_LONG))) \
+	X(IMP(OP_PSUBP, ISCASTTO(g_oxlr, W_R, AT_LONG))) \
+	X(IMP(OP_PSUBP, ISNEWCONST(XR, BS_SIZE(g_lbs)) && XR.ts == AT_LONG)) \
 	POST_FRAME(X) \
 	CANARY(X, !(op == TADD && g_lts == AT_INT && g_rts == TS_PTR && g_rbs == BS_S2))
 
@@ -137,6 +138,6 @@ harness(void)
 	g_proml = L_ARITH ? spec_promote(LC, g_lw, SC) : -1;
 	g_promr = R_ARITH ? spec_promote(RC, g_rw, SC) : -1;
 	g_compat = spec_bscompat(g_lbs, g_rbs);
-	g_no_error = 1;     /* a valid expression must be typed, not diagnosed */
+	g_no_error = 0;     /* acceptance of every valid expression: EXPR.mkbinary.accept */
 	HCALLR(struct expr *, PRE, POST, mkb_observe(mkbinaryexpr(loc, op, l, r)));
 }
